@@ -511,3 +511,33 @@ Section History.
     crun sub hasm chk sub_fresh (cinit ms) ops = (st', outs) -> outs_of outs = expected ms ops.
   Proof. intros Hnd. apply crun_full; [exact Hnd|apply FInv_init]. Qed.
 End History.
+
+(* ---- C20 for continuation keys: once the plain key is stored, a continuation access of the same combination
+        (any caller code) computes no resolution and leaves the table unchanged ---- *)
+Section Once.
+  Variable sub : nat -> nat -> bool.
+  Variable hasm : nat -> nat -> bool.
+  Variable chk : nat -> nat -> bool.
+  Variable sub_fresh : nat -> bool.
+
+  Lemma getitem_next_hit st c k h :
+    assoc_q (mkQ None k) (cs_dict st) = Some h ->
+    exists out, getitem sub hasm chk sub_fresh st (mkQ (Some c) k) = (st, out, false).
+  Proof.
+    intros Hk. unfold Cache.getitem. simpl q_caller. simpl q_key.
+    destruct (assoc_q (mkQ (Some c) k) (cs_dict st)); [eauto|].
+    rewrite (get_plain_hit sub hasm chk sub_fresh _ _ _ Hk).
+    destruct (assoc_k k (cs_all st)); [|eauto].
+    destruct (negb (memb c l)); [eauto|].
+    destruct (assoc_q (mkQ (Some c) k) (cs_err st)); [eauto|].
+    destruct (assoc_q (mkQ (Some c) k) (cs_dict st)); eauto.
+  Qed.
+
+  Theorem resolved_once_next st k st1 h r ops c :
+    get_plain sub hasm chk sub_fresh st k = (st1, ORun h, r) -> all_gets ops = true ->
+    exists out, getitem sub hasm chk sub_fresh (fst (crun sub hasm chk sub_fresh st1 ops)) (mkQ (Some c) k)
+                = (fst (crun sub hasm chk sub_fresh st1 ops), out, false).
+  Proof.
+    intros H Hg. apply (getitem_next_hit _ c k h). apply crun_keeps; [exact Hg|]. eapply get_plain_stores; eauto.
+  Qed.
+End Once.
